@@ -49,10 +49,12 @@ if confirmed:
     sh('cp -r /repo %s && rm -rf %s/.git' % (mr, mr))
     rc, out = sh('patch -p1 < %s' % patch, cwd=mr)
     assert rc == 0, out
+    cq = '/verif/_work/coq_mut_%s' % name
+    sh('rm -rf %s && cp -a /verif/coq %s' % (cq, cq))
     try:
         for c in [prop] + extra:
             t0 = time.time()
-            rc, out = sh('VERIF_REPO=%s VERIF_EVIDENCE_DIR=/verif/_work/ev_%s VERIF_REPLAY_DIR=/verif/_work/rp_%s ./check %s --tier quick' % (mr, name, name, c), cwd='/verif', timeout=3600)
+            rc, out = sh('VERIF_REPO=%s VERIF_COQ_DIR=%s VERIF_EVIDENCE_DIR=/verif/_work/ev_%s VERIF_REPLAY_DIR=/verif/_work/rp_%s ./check %s --tier quick' % (mr, cq, name, name, c), cwd='/verif', timeout=3600)
             lines = [l for l in out.split('\n') if l.startswith('VIOLATION') or l.startswith('KNOWN-FINDING')]
             meta['checks'][c] = {'exit': rc, 'wall_s': round(time.time() - t0), 'violations': [l for l in lines if l.startswith('VIOLATION')][:3],
                                  'nofail_only': all('no-failing-input-found' in l for l in lines if l.startswith('VIOLATION'))}
@@ -65,7 +67,7 @@ if confirmed:
                         shutil.copy(rp, os.path.join('/verif/seeded', name, 'replay-%s.json' % c))
                     break
     finally:
-        sh('rm -rf %s /verif/_work/ev_%s /verif/_work/rp_%s' % (mr, name, name))
+        sh('rm -rf %s %s /verif/_work/ev_%s /verif/_work/rp_%s' % (mr, cq, name, name))
 d = os.path.join('/verif/seeded', name)
 os.makedirs(d, exist_ok=True)
 for f in ('patch.diff', 'demo.py', 'notes.md'):
